@@ -49,6 +49,11 @@ func (s *StorageClient) Set(key string, item *mc.Item, noreply bool) (bool, erro
 	if !store.IsValidKeyString(key) {
 		return false, nil
 	}
+	if item.Exptime < 0 {
+		// the revision travels in the exptime field; a negative one would be stored as a
+		// tombstone with a body and its buffer would never be released
+		return false, nil
+	}
 	ki := s.prepare(key, false)
 	payload := &store.Payload{}
 	payload.Flag = uint32(item.Flag)
